@@ -207,6 +207,8 @@ pub fn run(run: &mut Run) {
     };
     let res = explore(&m, &cfg);
     super::seq_report(run, &m, &res, &cfg);
+    let deep = ["Set { admin: false, key: \"ab\", val: \"1\" }", "Set { admin: false, key: \"ab\", val: \"x y\" }", "Get { admin: false, key: \"ab\" }", "Remove { key: \"ab\" }", "Inc { key: \"ab\", by: 1 }", "Keys { admin: false, pat: \"\" }", "Snapshot { reclaim: false }", "Snapshot { reclaim: true }"];
+    super::deep_pass(run, &m, &deep, if quick { 5 } else { 7 }, if quick { 30 } else { 900 });
     run.cov("distinct_reply_kinds", serde_json::json!(m.reply_kinds.lock().unwrap().iter().cloned().collect::<Vec<_>>()));
     run.assume("values without newline or ';' (transport framing is C20/C10); i32 overflow excluded (C10)");
     run.assume("set-safe acceptance is taken from the implementation (its correctness is C02)");
